@@ -1,4 +1,5 @@
 use crate::compiler::prelude::*;
+use crate::compiler::type_def::Details;
 
 static DEFAULT_COMPACT: Value = Value::Boolean(false);
 
@@ -239,6 +240,30 @@ impl Expression for DelFn {
             self.query.delete_type_def(&mut true_result, true);
 
             state.external = false_result.merge(true_result);
+        }
+
+        // Deleting from a local variable changes that variable's type, and whatever constant
+        // value the compiler knew for it is no longer valid.
+        if let Some(ident) = self.query.variable_ident()
+            && let Some(details) = state.local.variable(ident).cloned()
+        {
+            let path = self.query.path();
+            let mut type_def = details.type_def;
+            if let Some(compact) = compact {
+                type_def.remove(path, compact);
+            } else {
+                let mut compacted = type_def.clone();
+                compacted.remove(path, true);
+                type_def.remove(path, false);
+                type_def = type_def.union(compacted);
+            }
+            state.local.insert_variable(
+                ident.clone(),
+                Details {
+                    type_def,
+                    value: None,
+                },
+            );
         }
 
         TypeInfo::new(state, return_type)
